@@ -635,10 +635,28 @@ impl RdfPlanner {
             }
         }
 
-        let join_condition: Option<Box<dyn JoinCondition>> = if shared_vars.is_empty() {
-            None
-        } else {
-            Some(Box::new(RdfJoinCondition::new(shared_vars.clone())))
+        let join_condition: Option<Box<dyn JoinCondition>> = match &join.condition {
+            // OPTIONAL { P FILTER F }: F is evaluated on the merged solution of both sides
+            Some(expr) => {
+                let variable_columns: HashMap<String, usize> = full_columns
+                    .iter()
+                    .enumerate()
+                    .rev() // a shared variable resolves to its left column (merged below)
+                    .map(|(i, name)| (name.clone(), i))
+                    .collect();
+                Some(Box::new(RdfLeftJoinCondition {
+                    compatible: RdfJoinCondition::new(shared_vars.clone()),
+                    shared_vars: shared_vars.clone(),
+                    left_col_count,
+                    right_col_count: right_columns.len(),
+                    predicate: RdfExpressionPredicate::new(
+                        convert_filter_expression(expr)?,
+                        variable_columns,
+                    ),
+                }))
+            }
+            None if shared_vars.is_empty() => None,
+            None => Some(Box::new(RdfJoinCondition::new(shared_vars.clone()))),
         };
 
         let join_op = Box::new(NestedLoopJoinOperator::new(
@@ -2533,6 +2551,58 @@ impl JoinCondition for RdfJoinCondition {
             }
         }
         true
+    }
+}
+
+/// Condition of a left join that carries a FILTER (SPARQL `OPTIONAL { P FILTER F }`): the two
+/// solutions must be compatible and F must hold on their merge.
+struct RdfLeftJoinCondition {
+    compatible: RdfJoinCondition,
+    shared_vars: Vec<(usize, usize)>,
+    left_col_count: usize,
+    right_col_count: usize,
+    predicate: RdfExpressionPredicate,
+}
+
+impl JoinCondition for RdfLeftJoinCondition {
+    fn evaluate(
+        &self,
+        left_chunk: &DataChunk,
+        left_row: usize,
+        right_chunk: &DataChunk,
+        right_row: usize,
+    ) -> bool {
+        if !self
+            .compatible
+            .evaluate(left_chunk, left_row, right_chunk, right_row)
+        {
+            return false;
+        }
+        // The merged solution as a one-row chunk: left columns, then right columns
+        let cell = |chunk: &DataChunk, col: usize, row: usize| {
+            chunk
+                .column(col)
+                .and_then(|c| c.get_value(row))
+                .unwrap_or(Value::Null)
+        };
+        let mut values: Vec<Value> = (0..self.left_col_count)
+            .map(|c| cell(left_chunk, c, left_row))
+            .collect();
+        values.extend((0..self.right_col_count).map(|c| cell(right_chunk, c, right_row)));
+        for &(l, r) in &self.shared_vars {
+            if matches!(values[l], Value::Null) {
+                values[l] = values[self.left_col_count + r].clone();
+            }
+        }
+        let schema = vec![LogicalType::Any; values.len()];
+        let mut merged = DataChunk::with_capacity(&schema, 1);
+        for (i, v) in values.into_iter().enumerate() {
+            if let Some(col) = merged.column_mut(i) {
+                col.push_value(v);
+            }
+        }
+        merged.set_count(1);
+        self.predicate.evaluate(&merged, 0)
     }
 }
 
